@@ -1,4 +1,5 @@
 import Rio.Model.Asm14
+import Rio.Proofs.AsmDup
 import Rio.Generated.Facts
 /-!
 # C14 — Tree assembly stays inside its root and is order-independent
@@ -11,6 +12,30 @@ theorem C14_perm (xs ys : List AsmInput) (hp : xs.Perm ys) (hn : (xs.map (·.pat
     asmPlan xs = asmPlan ys := by
   simp only [asmPlan, sortInputs]
   rw [sortBy_perm_eq (·.path) hp hn]
+
+/-- **Two inputs at one path are refused, and only then** — the hypothesis of `C14_perm` is what `Run` itself checks
+    (since the `fix:`; before, the input listed last silently shadowed the other, or — with a mount — the listing order
+    decided between acceptance and refusal). -/
+theorem C14_duplicate_iff (xs : List AsmInput) :
+    (∃ d, asmVerdict xs = .duplicate d) ↔ ¬ (xs.map (·.path)).Nodup :=
+  asm_duplicate_iff xs
+
+/-- **Order independence, no hypothesis**: two listings of the same inputs are both refused for a duplicate path, or get
+    the very same verdict (same refused input, or same processing order). -/
+theorem C14_total (xs ys : List AsmInput) (hp : xs.Perm ys) :
+    asmVerdict xs = asmVerdict ys ∨ ((∃ d, asmVerdict xs = .duplicate d) ∧ (∃ d, asmVerdict ys = .duplicate d)) := by
+  by_cases hn : (xs.map (·.path)).Nodup
+  · left
+    simp only [asmVerdict, sortInputs]
+    rw [sortBy_perm_eq (·.path) hp hn]
+  · right
+    have hn' : ¬ (ys.map (·.path)).Nodup := fun h => hn ((hp.map _).nodup_iff.2 h)
+    exact ⟨(C14_duplicate_iff xs).2 hn, (C14_duplicate_iff ys).2 hn'⟩
+
+/-- non-vacuity: a ware and a mount at one path, in both listing orders -/
+example : (∃ d, asmVerdict [⟨[0x2f, 0x78], false, 0⟩, ⟨[0x2f, 0x78], true, 1⟩] = .duplicate d) ∧
+    (∃ d, asmVerdict [⟨[0x2f, 0x78], true, 1⟩, ⟨[0x2f, 0x78], false, 0⟩] = .duplicate d) :=
+  ⟨⟨⟨[0x2f, 0x78], false, 0⟩, by decide⟩, ⟨⟨[0x2f, 0x78], true, 1⟩, by decide⟩⟩
 
 /-- the fixed containment test compares whole segments: `/ab` is not under `/a`, `/a/b` and `/a` are -/
 theorem C14_segments :
